@@ -188,6 +188,7 @@ type Obligation struct {
 	fg       *FnGen
 	Res      SolverResult
 	Vacuity  bool // must be SAT (cover obligation)
+	RelaxedModel bool
 }
 
 func sortedKeys[M ~map[string]V, V any](m M) []string {
